@@ -5,9 +5,12 @@ import (
 	"errors"
 	"os"
 	"sort"
+	"strings"
 
 	"github.com/nautilus/gateway"
 	"github.com/nautilus/graphql"
+	"github.com/vektah/gqlparser/v2/ast"
+	"github.com/vektah/gqlparser/v2/formatter"
 )
 
 func sortStrings(s []string) { sort.Strings(s) }
@@ -42,4 +45,11 @@ func countErrors(err error) int {
 		return n
 	}
 	return 1
+}
+
+// selText prints a selection set as GraphQL text
+func selText(ss ast.SelectionSet) string {
+	var sb strings.Builder
+	formatter.NewFormatter(&sb).FormatQueryDocument(&ast.QueryDocument{Operations: ast.OperationList{{Operation: ast.Query, SelectionSet: ss}}})
+	return sb.String()
 }
